@@ -96,6 +96,19 @@ def rotateKey (cfg : Cfg) (req : Req) : Run String := do
     destroyOld cfg cur
     pure kver
 
+/-- rotate.Key (fixed order) over gcsca.upload as it was before it refused objects recorded for other
+    key versions (`C10_old_upload_clobbers_primary`). -/
+def rotateKeyNoGuard (cfg : Cfg) (req : Req) : Run String := do
+  let kver ← kmCreate cfg
+  let (cur, root, issuer) ← getCurrentInfo cfg
+  if root = "" ∨ kver = "" then throw
+  else do
+    let (mu, _) ← signCert cfg req {} issuer kver root
+    let mu ← mutSetPrimary cfg mu kver
+    caFinalizeNoGuard cfg mu mu.certs
+    destroyOld cfg cur
+    pure kver
+
 /-- The order of rotate.Key BEFORE the fix: all five steps are evaluated as arguments of one
     multierr.Combine, each guarding only on the intermediate results it needs (`kver`, `mu`, …); the
     old key is destroyed before Finalize.  Kept to make the dependence of the theorems on the order
